@@ -18,7 +18,7 @@ CHECK = {
     "design_ref": "DESIGN.md section 3 C19",
     "targets": [{"name": "TestC19ChatPrompt",
                  "quick": {"cases": 6000, "shards": 2, "soft_s": 35},
-                 "thorough": {"cases": 50000, "shards": 16, "soft_s": 300}}],
+                 "thorough": {"cases": 160000, "shards": 16, "soft_s": 330}}],
     "floors": {"dropped_messages": 0.3, "image_on_dropped": 0.08, "image_on_retained": 0.15, "system_before_cut": 0.1,
                "system_after_cut": 0.08, "everything_fits": 0.05, "only_last_fits": 0.05, "cut_inside": 0.2,
                "boundary_exact_fit": 0.08, "boundary_one_token_short": 0.08, "collated_messages": 0.1},
